@@ -278,14 +278,14 @@ func genC03(run *Run) []*Spec {
 		{"downreset", "termination", 0}, {"terminate", "", 0}, {"none", "", 0}}
 	for _, sh := range shapes {
 		for _, retries := range []int{0, 1, 2} {
-			for _, try := range []int{0, 60} {
+			for _, try := range []int{0, 55} {
 				for _, k1 := range kinds {
 					for _, pool0 := range []string{"ok", "connfail", "overflow"} {
 						if pool0 != "ok" && r.Intn(3) != 0 {
 							continue
 						}
 						sp := &Spec{Oneway: sh[0], HasData: sh[1], HasTrailers: sh[2], Route: "forward", NHosts: 2, RetryOn: retries > 0,
-							NumRetries: retries, RouteGlobalMs: 3*slot + 20, RouteTryMs: try}
+							NumRetries: retries, RouteGlobalMs: 3*slot + 30, RouteTryMs: try}
 						if pool0 != "ok" {
 							sp.Pool = []string{pool0}
 						}
@@ -335,7 +335,7 @@ func genC03(run *Run) []*Spec {
 	// --- random part
 	n := run.N(300, 6000)
 	for i := 0; i < n; i++ {
-		sp := &Spec{Route: "forward", NHosts: 1 + r.Intn(3), RouteGlobalMs: (2+r.Intn(3))*slot + 20}
+		sp := &Spec{Route: "forward", NHosts: 1 + r.Intn(3), RouteGlobalMs: (2+r.Intn(3))*slot + 30}
 		switch r.Intn(8) {
 		case 0:
 			sp.Oneway = true
@@ -349,7 +349,7 @@ func genC03(run *Run) []*Spec {
 		}
 		sp.NumRetries = r.Intn(4)
 		if r.Intn(3) == 0 {
-			sp.RouteTryMs = slot + 20
+			sp.RouteTryMs = slot + 15
 		}
 		if r.Intn(4) == 0 {
 			sp.StatusCodes = []int{503}
@@ -379,7 +379,7 @@ func genC03(run *Run) []*Spec {
 		for k := 0; k < ne; k++ {
 			at := (1 + r.Intn(4)) * slot
 			if r.Intn(6) == 0 {
-				at += 20
+				at += 0 // (events stay on the grid; timers expire off it)
 			}
 			att := r.Intn(3)
 			switch r.Intn(7) {
